@@ -1,136 +1,14 @@
 ------------------------------- MODULE TokenMC -------------------------------
-(* Model for C04: a line-level *reference editor* for statement lists and a   *)
-(* family of single-fault damages, checked against the clauses of TokenLaws.  *)
-(*                                                                            *)
-(* A layout is a module of NStmt one-line statements; above each statement    *)
-(* (and after the last one) sits one of the Patterns of comment / blank       *)
-(* lines, and each statement may carry a line comment.  The reference editor  *)
-(* is written on *lines* from the documentation of the trivia option (it does *)
-(* not share a definition with TokenLaws, which works on token indices):      *)
-(*   delete / replace statement i : the statement line goes, with the leading *)
-(*     comment lines its leading mode selects ('none' | 'block' | 'all') and  *)
-(*     the trailing ones its trailing mode selects ('none' | 'line' |         *)
-(*     'block' | 'all'); an unselected line comment stays as a line of its    *)
-(*     own; optionally one adjacent blank line is eaten / added (pep8space,   *)
-(*     '+N' / '-N')                                                           *)
-(*   insert at i : a new line right after the previous statement              *)
-(* Invariants: Accept - every reference edit satisfies every clause;          *)
-(* Reject - every damaged result is rejected by the clause the property names *)
-(* for that kind of damage.  Tokens and lines are hash-consed integers as in  *)
-(* the recorded traces; the facts handed to TokenLaws are computed here by a  *)
-(* small tokenizer of the line model.                                         *)
-EXTENDS Integers, Sequences, FiniteSets, TLC
-
-CONSTANTS NStmt,       \* number of statements
-          Patterns,    \* set of sequences over {"c", "b"} (comment line, blank line) above a statement
-          TailPatterns, \* the same after the last statement
-          LeadModes, TrailModes
-
-(* constant values for the .cfg files (sequences cannot be written there)     *)
-PatQuick    == {<<>>, <<"c">>, <<"b", "c">>, <<"c", "b", "c">>}
-PatThorough == PatQuick \cup {<<"c", "b">>}
-TailQuick   == {<<>>, <<"c">>}
-TailThorough == {<<>>, <<"c">>, <<"b", "c">>}
-LeadAll  == {"none", "block", "all"}
-TrailAll == {"none", "line", "block", "all"}
-
-(* ---- ids ----------------------------------------------------------------- *)
-NewId == 9
-NL == 2001  NEWLINE == 2002  ENDMARKER == 2003
-CmtTok(j) == 1000 + j
-TokIds == (1..9) \cup (1001..1999) \cup {NL, NEWLINE, ENDMARKER}
-MKTab == [id \in TokIds |-> IF id < 1000 THEN [t |-> "NAME", s |-> "n"]
-                            ELSE IF id < 2000 THEN [t |-> "COMMENT", s |-> "#"]
-                            ELSE IF id = NL THEN [t |-> "NL", s |-> ""]
-                            ELSE IF id = NEWLINE THEN [t |-> "NEWLINE", s |-> ""]
-                            ELSE [t |-> "ENDMARKER", s |-> ""]]
-(* line ids: 1 blank; 1000+j comment j; 2000 + 20*stmt + 2*tr + variant       *)
-BlankLine == 1
-LineIds == {1} \cup (1001..1999) \cup (2000..2999)
-MLTab == [id \in LineIds |-> [b |-> id = 1]]
-
-TL == INSTANCE TokenLaws WITH KTab <- MKTab, LTab <- MLTab
-
-(* a line: [k |-> "stmt" | "cmt" | "blank", id, tr (comment id of the line    *)
-(* comment or 0), v (layout variant of the same tokens: re-indented)]         *)
-StmtLine(i, tr, v) == [k |-> "stmt", id |-> i, tr |-> tr, v |-> v]
-CmtLine(j)         == [k |-> "cmt", id |-> j, tr |-> 0, v |-> 0]
-BlankL             == [k |-> "blank", id |-> 0, tr |-> 0, v |-> 0]
-LineId(x) == IF x.k = "blank" THEN 1 ELSE IF x.k = "cmt" THEN 1000 + x.id
-             ELSE 2000 + 20 * x.id + 2 * (IF x.tr # 0 THEN 1 ELSE 0) + x.v
-LineToks(x) == IF x.k = "blank" THEN <<NL>> ELSE IF x.k = "cmt" THEN <<CmtTok(x.id), NL>>
-               ELSE <<x.id>> \o (IF x.tr # 0 THEN <<CmtTok(x.tr)>> ELSE <<>>) \o <<NEWLINE>>
-
-(* ---- layouts --------------------------------------------------------------- *)
-PatLines(p, base) == [q \in DOMAIN p |-> IF p[q] = "c" THEN CmtLine(base + q) ELSE BlankL]
-RECURSIVE Build(_, _, _, _)
-Build(pats, trail, tail, i) ==
-  IF i > NStmt THEN PatLines(tail, 10 * (NStmt + 1))
-  ELSE PatLines(pats[i], 10 * i) \o <<StmtLine(i, IF trail[i] THEN 100 + i ELSE 0, 0)>> \o Build(pats, trail, tail, i + 1)
-Layouts == [pats : [1..NStmt -> Patterns], trail : [1..NStmt -> BOOLEAN], tail : TailPatterns]
-LinesOf(lay) == Build(lay.pats, lay.trail, lay.tail, 1)
-
-(* ---- tokenizer of the line model ------------------------------------------- *)
-RECURSIVE Flat(_, _)
-(* sequence of [id, ln, fol] for lines[from..]                                 *)
-Flat(lines, from) ==
-  IF from > Len(lines) THEN <<[id |-> ENDMARKER, ln |-> Len(lines) + 1, fol |-> 1]>>
-  ELSE LET t == LineToks(lines[from])
-       IN [q \in DOMAIN t |-> [id |-> t[q], ln |-> from, fol |-> IF q = 1 THEN 1 ELSE 0]] \o Flat(lines, from + 1)
-Stream(lines) == LET f == Flat(lines, 1) IN
-  [k |-> [q \in DOMAIN f |-> f[q].id], sl |-> [q \in DOMAIN f |-> f[q].ln], fol |-> [q \in DOMAIN f |-> f[q].fol],
-   ln |-> [q \in DOMAIN lines |-> LineId(lines[q])]]
-
-StmtPos(lines) == {p \in DOMAIN lines : lines[p].k = "stmt"}
-PosOfStmt(lines, i) == CHOOSE p \in DOMAIN lines : lines[p].k = "stmt" /\ lines[p].id = i
-PrevStmtPos(lines, p) == LET S == {q \in StmtPos(lines) : q < p} IN IF S = {} THEN 0 ELSE CHOOSE q \in S : \A z \in S : z <= q
-NextStmtPos(lines, p) == LET S == {q \in StmtPos(lines) : q > p} IN IF S = {} THEN Len(lines) + 1 ELSE CHOOSE q \in S : \A z \in S : z >= q
-
-(* ---- the reference editor (lines) ------------------------------------------ *)
-IsCmt(lines, p) == p \in DOMAIN lines /\ lines[p].k = "cmt"
-LeadStart(lines, p, lm) ==
-  IF lm = "block" THEN CHOOSE a \in 1..p : (\A z \in a..(p - 1) : IsCmt(lines, z)) /\ ~(a > 1 /\ IsCmt(lines, a - 1))
-  ELSE IF lm = "all" THEN LET S == {z \in (PrevStmtPos(lines, p) + 1)..(p - 1) : IsCmt(lines, z)}
-                          IN IF S = {} THEN p ELSE CHOOSE a \in S : \A z \in S : a <= z
-  ELSE p
-TrailEnd(lines, p, tm) ==
-  IF tm = "block" THEN CHOOSE b \in p..Len(lines) : (\A z \in (p + 1)..b : IsCmt(lines, z)) /\ ~IsCmt(lines, b + 1)
-  ELSE IF tm = "all" THEN LET S == {z \in (p + 1)..(NextStmtPos(lines, p) - 1) : IsCmt(lines, z)}
-                          IN IF S = {} THEN p ELSE CHOOSE b \in S : \A z \in S : b >= z
-  ELSE p
-Seg(s, a, b) == IF a > b THEN <<>> ELSE SubSeq(s, a, b)
-
-(* eat: also remove one blank line directly above the removed region; add: a   *)
-(* blank line after the new statement                                          *)
-RefRemove(lines, i, lm, tm, new, eat, add) ==
-  LET p == PosOfStmt(lines, i)
-      a0 == LeadStart(lines, p, lm)
-      a == IF eat /\ a0 > 1 /\ lines[a0 - 1].k = "blank" THEN a0 - 1 ELSE a0
-      b == TrailEnd(lines, p, tm)
-      kept == IF tm = "none" /\ lines[p].tr # 0 THEN <<CmtLine(lines[p].tr)>> ELSE <<>>
-  IN Seg(lines, 1, a - 1) \o new \o kept \o (IF add THEN <<BlankL>> ELSE <<>>) \o Seg(lines, b + 1, Len(lines))
-RefInsert(lines, i, add) ==    \* i in 1..NStmt+1 : before statement i / at the end of the statement list
-  LET at == IF i = 1 THEN 0 ELSE PosOfStmt(lines, i - 1)
-  IN Seg(lines, 1, at) \o <<StmtLine(NewId, 0, 0)>> \o (IF add THEN <<BlankL>> ELSE <<>>) \o Seg(lines, at + 1, Len(lines))
-
-(* ---- facts for TokenLaws ---------------------------------------------------- *)
-TvPart(m) == [k |-> "str", b |-> FALSE, w |-> m, sg |-> "", hasn |-> FALSE, n |-> 0]
-NameIdx(st) == SelectSeq([q \in DOMAIN st.k |-> q], LAMBDA q : st.k[q] < 1000)
-ExtStmt(st, q) == IF st.k[q + 1] = NEWLINE THEN q + 1 ELSE q + 2    \* through the line comment and NEWLINE
-CaseOf(pre, post, ns, nt, lm, tm, deleting) ==
-  LET a == Stream(pre)  b == Stream(post)
-      n == Len(a.k)
-      names == NameIdx(a)
-      kids == [q \in DOMAIN names |-> [lo |-> names[q], hi |-> names[q], hx |-> ExtStmt(a, names[q]), r |-> 1, blk |-> FALSE]]
-  IN [ T |-> a.k, ts |-> a.sl, te |-> a.sl, tf |-> a.fol, L |-> a.ln,
-       U |-> b.k, us |-> b.sl, ue |-> b.sl, uf |-> b.fol, M |-> b.ln,
-       cLo |-> 1, cHi |-> n - 1, kids |-> kids,
-       E |-> [q \in DOMAIN names |-> [lo |-> names[q], hi |-> names[q], blk |-> FALSE]], r |-> 1,
-       valid |-> TRUE, ns |-> ns, nt |-> nt,
-       own |-> {q \in 1..(n - 1) : a.k[q] >= 1000}, uown |-> {q \in 1..(Len(b.k) - 1) : b.k[q] >= 1000}, uoOk |-> TRUE,
-       newc |-> <<>>, newk |-> <<NewId>>, stmt |-> TRUE, kind |-> "Module", field |-> "body", form |-> "slice", deleting |-> deleting,
-       tv |-> [n |-> 2, a |-> <<TvPart(lm), TvPart(tm)>>],
-       elifPre |-> FALSE, elifPost |-> FALSE, soleGen |-> FALSE, dependent |-> FALSE ]
+(* Model for C04: the line-level *reference editor* of TokenRef.tla (written   *)
+(* from the documentation of the trivia option, on lines) and a family of      *)
+(* single-fault damages, checked against the clauses of TokenLaws.tla (written *)
+(* on token indices).                                                          *)
+(* Invariants: Accept - every reference edit (delete / replace / insert of a   *)
+(* statement under every leading x trailing trivia mode, with or without an    *)
+(* adjacent blank line eaten / added) on every layout within the constants     *)
+(* satisfies every clause;  Reject - every damaged result is rejected by the   *)
+(* clause the property names for that kind of damage.                          *)
+EXTENDS TokenRef
 
 (* ---- state ------------------------------------------------------------------ *)
 VARIABLES phase, lay, req, post, dmg
